@@ -75,6 +75,14 @@ INFO = {
              "rules on the recorded result.",
         note="Trusts the in-memory storage fake (itself checked as an environment step) and TLC; tie-breaking at the cut and stream order left open.",
         ref="6/C08"),
+    "C19": dict(
+        text="TLC proves on bounded pools that the specification's own stage semantics is a Boolean algebra of filters (sub-multiset, "
+             "negation splits, commutation, idempotence, and = intersection, or = union, |= \"\" neutral) and then evaluates the same "
+             "relations on the result sets OBSERVED from Engine.Eval for every exported family and for random families with arbitrary "
+             "bytes and arbitrary valid regular expressions - relations between several executions of the real code, judged by TLC "
+             "(Trace_Algebra).",
+        note="Relations are checked on observed results only (no semantic model of the regex needed); distinct timestamps per scenario.",
+        ref="6/C19"),
 }
 
 NOT_YET = "no check registered yet in this revision (machinery under construction; see DESIGN.md section 6 for the planned model)"
